@@ -318,6 +318,51 @@ pub fn utf16_entry(text: &str, o: Options) -> Out {
     }
 }
 
+/// The same document *far into a stream*: one insignificant space announced with a length of
+/// 2^32 + 5 bytes comes first (as if 4 GiB of whitespace or of earlier documents had been
+/// consumed), then the text with its UTF-8 lengths. Every position the parser reports must then
+/// lie at or beyond that offset; they are translated back by subtracting it. Offsets kept in 32
+/// bits anywhere on the way (a span, a pending-escape position, an error) wrap around here and
+/// nowhere else.
+pub const FAR: usize = (1usize << 32) + 5;
+
+pub fn far_entry(text: &str, o: Options) -> Out {
+    let src = std::iter::once(DecodedChar::new(' ', FAR)).chain(text.chars().map(DecodedChar::from_utf8)).map(Ok::<DecodedChar, Infallible>);
+    let out = match explore::guard(|| norm(Value::parse_with(src, o))) {
+        Ok(o) => o,
+        Err(p) => return Out::Broken(format!("panic: {p}")),
+    };
+    let bad = |p: usize| Out::Broken(format!("position {p} lies before the offset 2^32 + 5 at which the document starts"));
+    let tr = |p: usize| p.checked_sub(FAR);
+    match out {
+        Out::Ok(v, map) => {
+            let mut m2 = Vec::with_capacity(map.len());
+            for (a, b, vol) in map {
+                match (tr(a), tr(b)) {
+                    (Some(a), Some(b)) => m2.push((a, b, vol)),
+                    _ => return bad(if tr(a).is_none() { a } else { b }),
+                }
+            }
+            Out::Ok(v, m2)
+        }
+        Out::Err(e) => {
+            let t2 = |a: usize, b: usize| match (tr(a), tr(b)) {
+                (Some(a), Some(b)) => Ok((a, b)),
+                _ => Err(if tr(a).is_none() { a } else { b }),
+            };
+            match e {
+                EK::Stream(p) => tr(p).map(|p| Out::Err(EK::Stream(p))).unwrap_or_else(|| bad(p)),
+                EK::Unexpected(p, c) => tr(p).map(|p| Out::Err(EK::Unexpected(p, c))).unwrap_or_else(|| bad(p)),
+                EK::InvalidUtf8(p) => tr(p).map(|p| Out::Err(EK::InvalidUtf8(p))).unwrap_or_else(|| bad(p)),
+                EK::InvalidUnicodeCodePoint(a, b, c) => t2(a, b).map(|(a, b)| Out::Err(EK::InvalidUnicodeCodePoint(a, b, c))).unwrap_or_else(bad),
+                EK::MissingLowSurrogate(a, b, h) => t2(a, b).map(|(a, b)| Out::Err(EK::MissingLowSurrogate(a, b, h))).unwrap_or_else(bad),
+                EK::InvalidLowSurrogate(a, b, h, c) => t2(a, b).map(|(a, b)| Out::Err(EK::InvalidLowSurrogate(a, b, h, c))).unwrap_or_else(bad),
+            }
+        }
+        b => b,
+    }
+}
+
 /// Every entry point that takes text, with default (strict) options or explicit strict options.
 pub fn all_strict_text_entry_points(text: &str) -> Vec<(&'static str, Out)> {
     let dc = |c: char| DecodedChar::from_utf8(c);
@@ -335,6 +380,7 @@ pub fn all_strict_text_entry_points(text: &str) -> Vec<(&'static str, Out)> {
         ("parse", g(|| norm(Value::parse(text.chars().map(|c| Ok::<DecodedChar, Infallible>(dc(c))))))),
         ("parse_with", g(|| norm(Value::parse_with(text.chars().map(|c| Ok::<DecodedChar, Infallible>(dc(c))), STRICT)))),
         ("parse_with(characters announced with their UTF-16 lengths)", utf16_entry(text, STRICT)),
+        ("parse_with(the document starting at offset 2^32 + 5 of its stream)", far_entry(text, STRICT)),
         ("FromStr", g(|| match text.parse::<Value>() {
             Ok(v) => Out::Ok(v, Vec::new()),
             Err(e) => match ek(&e) {
@@ -355,6 +401,7 @@ pub fn all_text_entry_points_with(text: &str, o: Options) -> Vec<(&'static str, 
         ("parse_infallible_with", g(|| norm(Value::parse_infallible_with(text.chars().map(dc), o)))),
         ("parse_with", g(|| norm(Value::parse_with(text.chars().map(|c| Ok::<DecodedChar, Infallible>(dc(c))), o)))),
         ("parse_with(characters announced with their UTF-16 lengths)", utf16_entry(text, o)),
+        ("parse_with(the document starting at offset 2^32 + 5 of its stream)", far_entry(text, o)),
     ]
 }
 
